@@ -94,7 +94,7 @@ func (v *visitor) VisitImplicitCondition(ctx *gen.ImplicitConditionContext) any 
 		if err == nil {
 			return NewCondition(PropertyTypeAttribute, AttributeID, OpEqual, strconv.Itoa(num))
 		}
-	} else if asURN != urns.NilURN {
+	} else if asURN != urns.NilURN && urns.IsValidScheme(asURN.Scheme()) {
 		scheme, path, _, _ := asURN.ToParts()
 
 		return NewCondition(PropertyTypeURN, scheme, OpEqual, path)
